@@ -8,6 +8,8 @@ import (
 	"strings"
 
 	"github.com/foxglove/mcap/go/mcap"
+	"github.com/klauspost/compress/zstd"
+	"github.com/pierrec/lz4/v4"
 )
 
 // srcReader is the configurable source: fragmentation of reads, an injected error at a byte
@@ -248,6 +250,18 @@ func runLex(lines []string) {
 func runDecomp(lines []string) {
 	for _, line := range lines {
 		f := strings.Fields(line)
+		if f[0] == "dall" {
+			comp := string(unhx(f[1]))
+			payload := unhx(f[2])
+			usize := u64(f[3])
+			plain, ok := directDecodeAll(comp, payload, usize)
+			if ok {
+				fmt.Fprintf(out, "dall %s %s %s ok %s\n", f[1], f[2], f[3], hx(plain))
+			} else {
+				fmt.Fprintf(out, "dall %s %s %s err -\n", f[1], f[2], f[3])
+			}
+			continue
+		}
 		if f[0] != "dec" {
 			continue
 		}
@@ -278,4 +292,32 @@ func (t *tailReader) Read(p []byte) (int, error) {
 		return 0, fmt.Errorf("verif: other source error")
 	}
 	return n, err
+}
+
+// directDecodeAll mirrors what a whole-buffer decode delivers: zstd DecodeAll; lz4 ReadFull of usize bytes.
+func directDecodeAll(comp string, payload []byte, usize uint64) ([]byte, bool) {
+	switch comp {
+	case "zstd":
+		d, err := zstd.NewReader(nil)
+		if err != nil {
+			return nil, false
+		}
+		defer d.Close()
+		outb, err := d.DecodeAll(payload, nil)
+		if err != nil {
+			return nil, false
+		}
+		return outb, true
+	case "lz4":
+		if usize > 1<<28 {
+			return nil, false
+		}
+		buf := make([]byte, usize)
+		_, err := io.ReadFull(lz4.NewReader(bytes.NewReader(payload)), buf)
+		if err != nil {
+			return nil, false
+		}
+		return buf, true
+	}
+	return nil, false
 }
